@@ -61,7 +61,11 @@ Section Lens.
   | PickupAdd (src : Z) (a : attr) (tgt : Z) (scale offset : T)
   | SolveAdd (idx : Z) (h : T)
   | Update | ImageSolve
-  | AddWavelength (v : T) (prim : bool).
+  | AddWavelength (v : T) (prim : bool)
+  (* add_surface(new_surface=<ready-made Surface / ImageSurface>, index=idx, thickness=t): the caller built the
+     object (vertex z, geometry, media: the medium in front is the object behind the predecessor; [MMirror] here
+     means "the same medium object behind as in front") *)
+  | AddReady (idx : Z) (kind : gkind) (R k : T) (c : list T) (z t : T) (m : matspec T) (stop refl : bool).
 
   (** ** field updates *)
   Definition with_z (s : surf) (z : T) : surf :=
@@ -218,6 +222,20 @@ Section Lens.
         Some (mkL (insert_at (Z.to_nat idx) new olds) mats' t (waves l) (prims l) (pickups l) (solves l) (ap l))
     end.
 
+  (** SurfaceGroup.add_surface with new_surface given: no factory call; the stop flags are cleared when the new
+      surface is a stop, the object is inserted, and the gap thickness is recorded for the next keyword surface *)
+  Definition add_ready (l : lens) (idx : Z) (kind : gkind) (R k : T) (c : list T) (z t : T) (m : matspec T)
+             (stop refl : bool) : option lens :=
+    if (idx <? 1)%Z || (nsurf l <? idx)%Z then None else
+    match cfg_material l idx m with
+    | None => None
+    | Some (pre, post, mats') =>
+        let '(g, R', k', c') := cfg_geometry kind R k c in
+        let new := mkS (ofZ 0) (ofZ 0) z (ofZ 0) (ofZ 0) g R' k' c' pre post stop refl false in
+        let olds := if stop then map (fun s => with_stop s false) (surfs l) else surfs l in
+        Some (mkL (insert_at (Z.to_nat idx) new olds) mats' t (waves l) (prims l) (pickups l) (solves l) (ap l))
+    end.
+
   Definition remove_surface (l : lens) (idx : Z) : option lens :=
     if (1 <=? idx)%Z && (idx <? nsurf l)%Z then Some (with_surfs l (remove_at (Z.to_nat idx) (surfs l))) else None.
 
@@ -319,6 +337,7 @@ Section Lens.
     | Update => update l
     | ImageSolve => image_solve l
     | AddWavelength v prim => Some (add_wavelength l v prim)
+    | AddReady idx kind R k c z t m stop refl => add_ready l idx kind R k c z t m stop refl
     end.
 
   (** the whole history; [None] as soon as a call raises *)
